@@ -1,14 +1,10 @@
 //! C01–C04: checks built on the queue-history engine.
 
 use super::qh::{self, QCase};
-use crate::runner::{run_items, run_proptest, Ctx, Failure, PartInfo, Stats};
+use crate::runner::{run_items, run_proptest, Ctx, PartInfo, Stats};
 use serde_json::json;
 
-pub struct Report {
-    pub stats: Stats,
-    pub failure: Option<Failure>,
-    pub info: PartInfo<'static>,
-}
+pub use crate::runner::Report;
 
 fn prop_static(id: &str) -> &'static str {
     match id {
